@@ -176,6 +176,28 @@ def parseMsgs : Nat → List String → Option (List Msg)
     let ms ← parseMsgs n (toks.drop 10)
     some (m :: ms)
 
+/-- FNV-1a (64 bit) of the messages joined by newlines: long reports are compared by count and hash. -/
+def fnvBytes (h : UInt64) (b : Bytes) : UInt64 := b.foldl (fun h c => (h ^^^ c.toUInt64) * 1099511628211) h
+
+def fnvMsgs : UInt64 → Bool → List Bytes → UInt64
+  | h, _, [] => h
+  | h, first, m :: ms => fnvMsgs (fnvBytes (if first then h else fnvBytes h [10]) m) false ms
+
+/-- The number after the leading `m` of a message id. -/
+def fragBase (f : Bytes) : Option Nat :=
+  match f with
+  | 109 :: ds => if ds ≠ [] && ds.all (fun c => 48 ≤ c && c ≤ 57) then some (ds.foldl (fun n c => n * 10 + (c.toNat - 48)) 0) else none
+  | _ => none
+
+/-- `n` exchanges that differ in their id only. -/
+def burst (s : State) (m : Msg) (base : Nat) : Nat → Nat → State × Bool × Bool
+  | 0, _ => (s, false, false)
+  | k + 1, i =>
+    let mi := { m with frag := 109 :: natDigits (base + i) }
+    let rq := s.req.modify .req mi
+    let rs := s.res.modify .res mi
+    if k = 0 then (⟨rq.1, rs.1⟩, rq.2, rs.2) else burst ⟨rq.1, rs.1⟩ m base k (i + 1)
+
 def showSorted (l : List Bytes) : String :=
   let hs := ((l.map hex).toArray.qsort (· < ·)).toList
   " ".intercalate (s!"conc {hs.length}" :: hs)
@@ -207,6 +229,19 @@ def step (st : St) (toks : List String) : St × String :=
         let rs := st.s.res.modify .res m
         (⟨⟨rq.1, rs.1⟩, false⟩, s!"t {b2s rq.2} {b2s rs.2}")
     | none => (st, "bad-op")
+  | "tb" :: n :: rest =>
+    match n.toNat?, parseMsg rest with
+    | some n, some m =>
+      match fragBase m.frag with
+      | some base =>
+        if !msgOk m then (⟨st.s, true⟩, "out-of-model")
+        else if n = 0 then (st, "bad-op")
+        else
+          let r := burst st.s m base n 0
+          (⟨r.1, false⟩, s!"tb {n} {b2s r.2.1} {b2s r.2.2}")
+      | none => (st, "bad-op")
+    | _, _ => (st, "bad-op")
+  | ["qh"] => let q := st.s.query; (st, s!"qh {q.length} {fnvMsgs 14695981039346656037 true q}")
   | ["q"] => (st, showQuery st.s.query)
   | ["r"] => (⟨st.s.reset, false⟩, "r 204")
   | ["qbad"] => (st, "qbad 405")
